@@ -61,6 +61,10 @@ var c02Catalogue = []string{
 	// it; the peer now at the address declines to resume and does a full handshake as impostor <x>
 	"after-session:honest", "after-session:untrusted-ca", "after-session:mixed-ca", "after-session:expired", "after-session:swapped",
 	"after-session:single-cert", "after-session:skx-other-key", "after-session:no-enc-key",
+	// genuine signing certificate (key held); the encryption certificate comes from a CA that copies the trusted
+	// CA's subject name and subject key identifier under another key: issuer name and authority key identifier
+	// match the trusted CA, its signature does not
+	"forged-ca-enc",
 }
 
 func (c02) ID() string    { return "C02" }
@@ -116,7 +120,7 @@ func c02MustFail(imp string, skip bool) bool {
 	switch imp {
 	case "honest", "late-honest", "honest-short-rand":
 		return false
-	case "untrusted-ca", "expired", "not-yet-valid", "wrong-name", "mixed-ca", "wrong-name-ip", "resume-unverified-mixed", "valid-then-expired", "valid-then-expired-resume", "recent-expired", "resume-other-name":
+	case "untrusted-ca", "expired", "not-yet-valid", "wrong-name", "mixed-ca", "forged-ca-enc", "wrong-name-ip", "resume-unverified-mixed", "valid-then-expired", "valid-then-expired-resume", "recent-expired", "resume-other-name":
 		return !skip // certificate checks only: acceptable once verification is disabled (keys are held)
 	case "resume-unverified":
 		return !skip
@@ -190,6 +194,10 @@ func (c02) Run(c *Case, src *vs.Src) *Result {
 		o.Certs = ders("server_sig", "server_untrusted_enc")
 		o.EncKey = sm2Key("server_untrusted_enc")
 		ownEnc = "server_untrusted_enc"
+	case "forged-ca-enc":
+		o.Certs = ders("server_sig", "server_forgedca_enc")
+		o.EncKey = sm2Key("server_forgedca_enc")
+		ownEnc = "server_forgedca_enc"
 	case "skx-other-key":
 		o.SigKey = sm2Key("server2_sig")
 	case "skx-other-randoms":
